@@ -75,7 +75,9 @@ def obligations(tier, seed):
                       contract='forall a,b:%s with the raw expression defined: += -= *= /= and scalar * / give exactly the raw result' % ct,
                       functions_under_contract=('au::Quantity::operator+=,-=,*=,/=', 'au::operator*(Quantity,T)', 'au::operator*(T,Quantity)', 'au::operator/(Quantity,T)')))
         # compound assignment and scalar * / with a scalar of a DIFFERENT integral type: the raw operator works in the common type and converts back last
-        for srep in {'i32': ('i64', 'u32', 'i8'), 'i64': ('u64', 'i32'), 'u8': ('i32',), 'u32': ('i32', 'u64'), 'i16': ('u16',)}.get(rep, ()):
+        mixed_scalars = {'i32': ('i64', 'u32', 'i8'), 'i64': ('u64', 'i32'), 'u8': ('i32',), 'u32': ('i32', 'u64'), 'i16': ('u16',)}
+        if tier == 'thorough': mixed_scalars = {r: tuple(x for x in G.INT_REPS if x != r) for r in G.INT_REPS}
+        for srep in mixed_scalars.get(rep, ()):
             cs2 = G.ctype(srep)
             C2 = G.common(rep, srep); cc = G.ctype(C2)
             wte2 = Wrapper('w_timeseq_%s_%s' % (rep, srep), ct, [(ct, 'a'), (cs2, 's')], 'auto q = %s; q *= s; return q.in(%s{});' % (mk('a'), U))
@@ -109,7 +111,7 @@ def obligations(tier, seed):
                       contract='forall a:%s: unit(a).in(unit) == a; Quantity{}.in(unit) == 0; data_in aliases the value' % ct,
                       functions_under_contract=('au::QuantityMaker::operator()', 'au::Quantity::in', 'au::Quantity::data_in')))
     # QuantityPoint, same unit: comparisons, point - point, point +/- displacement, += -= are the raw operators on the stored values
-    for rep in ('i32', 'u16', 'i64'):
+    for rep in (G.INT_REPS if tier == 'thorough' else ('i32', 'u16', 'i64')):
         ct = G.ctype(rep); P = G.promoted(rep); cp = G.ctype(P)
         pre2 = pre + '\n//--\n#include "au/quantity_point.hh"'
         pa = 'au::make_quantity_point<%s>(a)' % U; pb = 'au::make_quantity_point<%s>(b)' % U; qb = 'au::make_quantity<%s>(b)' % U
